@@ -67,13 +67,9 @@ theorem escape_sh (s : LexSt) (sz : Nat) (t : Char) (k : Nat) :
   split
   · rfl
   · split
-    · split
-      · simp [shDiag_mkDiag, shHl]
-      · split
-        · rfl
-        · split
-          · simp [shDiag_mkDiag, shHl]
-          · rfl
+    · by_cases hds : (takeWhileFrom s.rest (sz + 1) isHexDigit).isEmpty = true
+      · simp [hds, shDiag_mkDiag, shHl]
+      · simp [hds]
     · split
       · rfl
       · simp [shDiag_mkDiag, shHl]
